@@ -80,8 +80,19 @@ def _gate_order(ctx, fi, state_pred, what):
             ctx.ok("R18.1", where(fi), f"{what}: check_allow dominates authenticate(); the denied arm cannot reach it")
         else:
             ctx.bad("R18.1", fi.module, fi.qual, "check_allow -> authenticate", f"{what}: authenticate() can be reached without passing the throttle test (or from its denied arm): a locked-out user/address still gets its password tested", g.nodes[auth[0]].line, flow.fmt_path(g, w) if w else "")
-        # arguments: (user, addr)
+        # arguments: (user, addr) - the address key must be the peer's *address* (rem_addr), not a per-connection name
         cc = [c for c in calls_in(t) if call_name(c) == "check_allow"][0]
+        for call in [cc] + [c for c in calls_in(fi.node) if call_name(c) == "login_failed"]:
+            if len(call.args) < 2:
+                continue
+            a = call.args[1]
+            srcs = [a]
+            if isinstance(a, ast.Name):
+                srcs = [s_.value for s_ in body_walk(fi.node) if isinstance(s_, ast.Assign) and norm(s_.targets[0]) == a.id]
+            if srcs and all(isinstance(x, ast.Attribute) and x.attr == "rem_addr" for x in srcs):
+                ctx.ok("R18.1", where(fi), f"{call_name(call)}: address key is the peer address ({norm(srcs[0])})")
+            else:
+                ctx.bad("R18.1", fi.module, fi.qual, f"{call_name(call)}(…, {norm(a)})", f"{what}: the address key of the throttle is `{norm(srcs[0]) if srcs else norm(a)}`, not the peer's address (rem_addr): failures are counted per connection (addr:port) and a host that reconnects for each guess is never locked out", call.lineno)
         ctx.ok("R18.1", where(fi), f"throttle consulted with ({norm(cc.args[0])}, {norm(cc.args[1])})", nontrivial=False)
     # failure arms record the failure
     fails = []
@@ -292,6 +303,30 @@ def r18_5(ctx):
     p = ctx.p
     au = p.func("auth.authenticate")
     g = ctx.cfg(au)
+    # the password file is re-read whenever it is newer than what we hold, and it is marked as held only after the re-read
+    # returned (an await: other logins run meanwhile and must not find the mark already set; a failed read must not set it)
+    rd = [n.id for n in g.nodes if n.ast is not None and n.kind == "stmt" and any(call_name(c) == "read_users_from_file" for c in calls_in(n.ast))]
+    mk = [n.id for n in g.nodes if n.kind == "stmt" and isinstance(n.ast, ast.Assign) and norm(n.ast.targets[0]) == "PW_FILE_LAST_TIMESTAMP"]
+    if rd and mk:
+        okm = True
+        for m_ in mk:
+            if flow.dominated_by(g, m_, lambda n: n in rd, flow.ALL) is not None:
+                okm = False
+            exc_succ = [e.dst for r_ in rd for e in g.out[r_] if e.label not in flow.NORMAL]
+            if exc_succ and m_ in flow.reach(g, exc_succ, flow.ALL):
+                okm = False
+        ctx.paths_explored += 2 * len(mk)
+        if okm:
+            ctx.ok("R18.5", where(au), "the password file is marked as loaded only after read_users_from_file() returned")
+        else:
+            ctx.bad("R18.5", au.module, au.qual, "PW_FILE_LAST_TIMESTAMP = mtime before/without read_users_from_file()", "the password file is marked as loaded before (or without) its re-read having completed: a login that runs during the awaited re-read, or after a failed one, is checked against the old passwords - a changed, disabled or removed password still authenticates", g.nodes[mk[0]].line)
+    else:
+        ctx.bad("R18.5", au.module, au.qual, "reload of the password file", "authenticate() no longer re-reads a changed password file (or never records that it did)", au.node.lineno)
+    gt = [n for n in body_walk(au.node) if isinstance(n, ast.If) and any(call_name(c) == "read_users_from_file" for st in n.body for c in calls_in(st))]
+    if gt and isinstance(gt[0].test, ast.Compare) and isinstance(gt[0].test.ops[0], (ast.Gt, ast.NotEq)) and "PW_FILE_LAST_TIMESTAMP" in norm(gt[0].test.comparators[0]) and "mtime" in norm(gt[0].test.left):
+        ctx.ok("R18.5", where(au), "re-read exactly when the file is newer than the copy held", nontrivial=False)
+    else:
+        ctx.bad("R18.5", au.module, au.qual, "if mtime > PW_FILE_LAST_TIMESTAMP", "the password file is no longer re-read exactly when it changed: a new password is not picked up / the old one keeps working", au.node.lineno)
     t = norm(au.node, 8000)
     rets = [n.id for n in g.nodes if n.kind == "return"]
     from .common import pm_of
